@@ -83,6 +83,11 @@ class Gen:
 
     # ---- ids -------------------------------------------------------------
     def new_sid(self):
+        if getattr(self, 'faulty', False) and getattr(self, 'truth', None) and self.R.random() < 0.03:
+            base = self.R.choice(self.truth)[0]
+            v = base + self.R.choice([' ', '0', '.'])
+            if v not in [s for s, _ in self.truth]:
+                return v            # an id that differs from an existing one only by padding / one character
         self.sid_counter += 1
         return self.sid_style % self.sid_counter
 
@@ -304,7 +309,7 @@ class Ncs(Gen):
     """Generates the op stream of one run."""
 
     SHAPES_CLEAN = {'existing': 1.0}
-    SHAPES_FAULTY = {'existing': 0.72, 'unknown': 0.09, 'stale': 0.07, 'blank': 0.08, 'missing': 0.04}
+    SHAPES_FAULTY = {'existing': 0.68, 'unknown': 0.08, 'stale': 0.07, 'blank': 0.08, 'missing': 0.04, 'near': 0.05}
 
     def __init__(self, seed, profile, faulty):
         super().__init__(seed, profile)
@@ -344,11 +349,24 @@ class Ncs(Gen):
         names = sorted(sh)
         return R.choices(names, [sh[n] for n in names])[0]
 
+    def near(self, x, pool):
+        """an id that is NOT x but close to it: padded, other case, a prefix, an extension"""
+        R = self.R
+        for _ in range(6):
+            v = R.choice([x + ' ', ' ' + x, x + '\n', x.swapcase(), x[:-1], x + '0', x + x[-1:], '\t' + x + ' '])
+            if v and v != x and v not in pool and v.strip(' \t\n') != '':
+                return v
+        return x + '~'
+
     def ref_story(self, allow_blank=True, allow_missing=False, exclude=()):
         """-> (ref, shape)"""
         R = self.R
         pool = [s for s in self.sids() if s not in exclude]
         shape = self.draw_shape(allow_blank, allow_missing, bool(pool))
+        if shape == 'near':
+            if pool:
+                return self.near(R.choice(pool), self.sids()), 'near'
+            shape = 'unknown'
         if shape == 'existing':
             return R.choice(pool), shape
         if shape == 'stale':
@@ -365,6 +383,10 @@ class Ncs(Gen):
         R = self.R
         pool = [i for i in (entry[1] if entry else []) if i not in exclude]
         shape = self.draw_shape(allow_blank, allow_missing, bool(pool))
+        if shape == 'near':
+            if pool:
+                return self.near(R.choice(pool), entry[1]), 'near'
+            shape = 'unknown'
         if shape == 'existing':
             return R.choice(pool), shape
         if shape == 'stale':
@@ -458,6 +480,9 @@ class Ncs(Gen):
             elif k < 0.23:
                 refs[i] = None
                 shapes[i] = 'blank'
+            elif k < 0.28 and isinstance(refs[i], str):
+                refs[i] = self.near(refs[i], self.sids() if pool_kind == 's' else (entry[1] if entry else []))
+                shapes[i] = 'near'
         if not refs and R.random() < 0.5:
             refs = [('nosuch-%d' if pool_kind == 's' else 'noitem-%d') % R.randint(1, 99)]
             shapes = ['unknown']
@@ -486,6 +511,30 @@ class Ncs(Gen):
             have.add(iid)
             out.append(self.gen_item(iid))
         return out
+
+    def fill_storysend(self, op, sref, entry):
+        R = self.R
+        keep_items = entry[1] if entry and R.random() < 0.5 else None
+        st = self.gen_story(sref, item_ids=keep_items)
+        op['payload'] = [st]
+        op.pop('roid_pos', None)
+        ch = st[4]
+        body_idx = [i for i, c in enumerate(ch) if c[0] in ('p', 'item')]
+        lo = min(body_idx) if body_idx else R.randint(1, len(ch))
+        hi = max(body_idx) + 1 if body_idx else lo
+        i = R.randint(1, lo) if R.random() < 0.4 else lo
+        j = R.randint(hi, len(ch)) if R.random() < 0.4 else hi
+        op['body_span'] = [i, j]
+        if R.random() < 0.12:
+            # storyBody first: the story's head (storyID, slug, metadata) follows the body
+            head = [c for c in ch[:lo]]
+            st[4] = ch[lo:hi] + head + ch[hi:]
+            op['body_span'] = [0, hi - lo]
+            op['roid_pos'] = R.randint(1, 1 + len(head))
+        elif R.random() < 0.2:
+            op['roid_pos'] = R.randint(0, len(ch) - (j - i) + 1)
+        if entry:
+            entry[1] = _iids(st)
 
     # ---- one op ----------------------------------------------------------
     def gen_op(self):
@@ -627,26 +676,9 @@ class Ncs(Gen):
             sh['target'] = sshape
             sh['pos'] = 'k=%s' % (sids.index(sref) + 1 if sref in sids else '-')
             entry = self.story_entry(sref)
-            keep_items = entry[1] if entry and R.random() < 0.5 else None
-            st = self.gen_story(sref, item_ids=keep_items)
-            op['payload'] = [st]
-            ch = st[4]
-            body_idx = [i for i, c in enumerate(ch) if c[0] in ('p', 'item')]
-            lo = min(body_idx) if body_idx else R.randint(1, len(ch))
-            hi = max(body_idx) + 1 if body_idx else lo
-            i = R.randint(1, lo) if R.random() < 0.4 else lo
-            j = R.randint(hi, len(ch)) if R.random() < 0.4 else hi
-            op['body_span'] = [i, j]
-            if R.random() < 0.12:
-                # storyBody first: the story's head (storyID, slug, metadata) follows the body
-                head = [c for c in ch[:lo]]
-                st[4] = ch[lo:hi] + head + ch[hi:]
-                op['body_span'] = [0, hi - lo]
-                op['roid_pos'] = R.randint(1, 1 + len(head))
-            elif R.random() < 0.2:
-                op['roid_pos'] = R.randint(0, len(ch) - (j - i) + 1)
-            if entry:
-                entry[1] = _iids(st)
+            if R.random() < 0.08:
+                op['resend'] = True          # the NCS sends the story again, edited, under the same message id
+            self.fill_storysend(op, sref, entry)
         elif t in ('ItemInsert', 'EAItemInsert'):
             if R.random() < 0.3:
                 op['target'], sh['target'] = None, 'end'
